@@ -58,6 +58,12 @@
 //!         the public constructors (`FixedTimeout::new(d)` / `DynamicTimeout::new(f)`), then copied along `path`
 //!         ('c' = `Clone::clone` of the concrete value, 'b' = `TimeoutFn::clone_box`, also of a boxed one), is asked
 //!         for the timeout of a request carrying `timeout=<t>`: logged as `probe source <ms|max>`.
+//!         `woken c=<c>`: has the waker of caller c's call future fired — outside a poll of that future — since the
+//!         future was last polled?  (Every call future is wrapped in `Watched`, which hands the limiter's future a
+//!         recording waker and forwards every wake-up to the poller's.)  Logged as `probe woken <c>` with the answer as
+//!         the observed choice `@woken=<0|1>` on the op line and as meta line `#woken <c> <t> <0|1>`: a waker may fire
+//!         spuriously, but once min(done, deadline) has been reached it must have fired (the model checks the obligation:
+//!         `probe woken <c> lost-wakeup` otherwise).  0 for a call never polled, resolved or dropped.
 //! Results are rendered through the error type's accessors as well as by pattern: `is_timeout()`, `into_inner()` and the
 //! conversion into `ResilienceError` must say what the variant says; if not, `!accessors:…` is appended to the text.
 //!
@@ -65,9 +71,13 @@
 //! inner call over the timeout" the non-cancel `select!` is biased (oneshot first), so the layer
 //! is deterministic under the harness and the model takes no `@…` input.
 use crate::world::*;
-use std::cell::Cell;
+use std::cell::{Cell, RefCell};
 use std::collections::{BTreeMap, HashMap};
+use std::future::Future;
+use std::pin::Pin;
+use std::sync::atomic::{AtomicBool, Ordering};
 use std::sync::{Arc, Mutex};
+use std::task::{Context, Poll, Wake, Waker};
 use std::time::Duration;
 use tower::{Layer, Service};
 use tower_resilience_core::ResilienceError;
@@ -275,6 +285,7 @@ impl Adapter {
         for k in [&ARMED, &FIRED, &SEEN] {
             k.with(|c| c.set([0; 3]));
         }
+        WATCH.with(|m| m.borrow_mut().clear());
         let per_req: PerReq = Arc::new(Mutex::new(HashMap::new()));
         let inner = wrapped(kv);
         let (layer, src) = build_chain(kv.get("via").unwrap_or("builder"), &chain_of(kv), &per_req, true);
@@ -346,6 +357,71 @@ pub fn render(r: Result<Resp, TimeLimiterError<IErr>>) -> String {
     text
 }
 
+// ------------------------------------------------------------------ wake-ups of a pending call future (`probe woken`)
+
+/// the waker handed to a call future: remembers that it fired (outside a poll of that future: a future that wakes
+/// itself while being polled — a yield, an exhausted cooperative budget — is simply polled again by the poller) and
+/// forwards the wake-up to the poller's own waker
+struct WakeRec {
+    outer: Mutex<Option<Waker>>,
+    fired: AtomicBool,
+    in_poll: AtomicBool,
+}
+impl Wake for WakeRec {
+    fn wake(self: Arc<Self>) {
+        self.wake_by_ref();
+    }
+    fn wake_by_ref(self: &Arc<Self>) {
+        if !self.in_poll.load(Ordering::SeqCst) {
+            self.fired.store(true, Ordering::SeqCst);
+        }
+        let w = self.outer.lock().unwrap_or_else(|e| e.into_inner()).clone();
+        if let Some(w) = w {
+            w.wake_by_ref();
+        }
+    }
+}
+
+thread_local! {
+    /// caller -> the recording waker of its pending call future
+    static WATCH: RefCell<BTreeMap<usize, Arc<WakeRec>>> = const { RefCell::new(BTreeMap::new()) };
+}
+
+struct Watched {
+    c: usize,
+    fut: CallFut,
+    rec: Arc<WakeRec>,
+}
+fn watched(c: usize, fut: CallFut) -> CallFut {
+    let rec = Arc::new(WakeRec { outer: Mutex::new(None), fired: AtomicBool::new(false), in_poll: AtomicBool::new(false) });
+    WATCH.with(|m| m.borrow_mut().insert(c, rec.clone()));
+    Box::pin(Watched { c, fut, rec })
+}
+impl Future for Watched {
+    type Output = String;
+    fn poll(self: Pin<&mut Self>, cx: &mut Context<'_>) -> Poll<String> {
+        let this = self.get_mut();
+        *this.rec.outer.lock().unwrap_or_else(|e| e.into_inner()) = Some(cx.waker().clone());
+        this.rec.fired.store(false, Ordering::SeqCst);
+        this.rec.in_poll.store(true, Ordering::SeqCst);
+        let w = Waker::from(this.rec.clone());
+        let mut cx2 = Context::from_waker(&w);
+        let r = this.fut.as_mut().poll(&mut cx2);
+        this.rec.in_poll.store(false, Ordering::SeqCst);
+        if r.is_ready() {
+            let c = this.c;
+            let _ = WATCH.try_with(|m| m.borrow_mut().remove(&c));
+        }
+        r
+    }
+}
+impl Drop for Watched {
+    fn drop(&mut self) {
+        let c = self.c;
+        let _ = WATCH.try_with(|m| m.borrow_mut().remove(&c));
+    }
+}
+
 /// what a Tower caller does with a handle: `poll_ready` first; anything but `Ready(Ok)` and no call is made
 fn call_on<S>(svc: &mut S, c: usize, req: Req) -> Option<CallFut>
 where
@@ -364,7 +440,7 @@ where
         }
     }
     let fut = svc.call(req);
-    Some(held(fut, render))
+    Some(watched(c, held(fut, render)))
 }
 
 impl Svc {
@@ -453,6 +529,14 @@ impl Mw for Adapter {
         }
     }
     fn probe(&mut self, what: &str, kv: &Kv) {
+        if what == "woken" {
+            let c = kv.u64("c", 0) as usize;
+            let fired = WATCH.with(|m| m.borrow().get(&c).map(|r| r.fired.load(Ordering::SeqCst)).unwrap_or(false));
+            obs("woken", fired as u8);
+            log_raw(format!("#woken {} {} {}", c, now_ms(), fired as u8));
+            log(format!("probe woken {}", c));
+            return;
+        }
         if what != "source" {
             return;
         }
